@@ -364,7 +364,7 @@ def chr_(i):
         if isinstance(i, SymBool):
             i = i._int()
         if i.lo < 0 or i.hi > 0x10FFFF:
-            if core.cur().branch(core.sym_or(i < 0, i > 0x10FFFF).e):
+            if _b.bool(truth(core.sym_or(i < 0, i > 0x10FFFF))):
                 raise ValueError("chr() arg not in range(0x110000)")
         return mk_seq("str", [i])
     return _b.chr(i)
